@@ -389,6 +389,10 @@ def check(res, tr, timers, resolved):
             if abs(d - interval) > 1e-9:
                 res.violate("delay/first-retry-of-a-batch-not-the-configured-interval", "first retry delay of a batch "
                             "is %.6f, configured interval %.6f" % (d, interval))
+        elif interval == 0:
+            # a configured interval of zero: every retry is immediate (0 times any factor)
+            if abs(d) > 1e-9:
+                res.violate("delay/zero-interval-not-honoured", "retry delay %.6f with a configured interval of 0" % d)
         else:
             r = d / prev
             if r <= 1.0 + 1e-9:
